@@ -138,6 +138,16 @@ def run_sched(ctx, pid, profiles, n_quick, n_thorough, extra=None, monitor_profi
     n = n_quick if tier == "quick" else n_thorough
     if ctx.get("replay"):
         rp = _json.load(open(ctx["replay"]))
+        sched_of = (rp.get("detail") or {}).get("schedule") if isinstance(rp.get("detail"), dict) else None
+        cfg_of = rp.get("config") or (sched_of or {}).get("cfg") or {}
+        evs_of = rp.get("events") or (sched_of or {}).get("events") or []
+        stepped = any(e.split()[0] not in ("call", "worker", "sweep", "drain", "advance", "poll", "run") or (e.split()[0] == "call" and e.split()[2] in ("hold_ref", "release_ref")) for e in evs_of)
+        if (not (rp.get("events") and rp.get("config")) and not (isinstance(sched_of, dict) and sched_of.get("events"))) or cfg_of.get("points") or stepped or str(rp.get("signature", "")).startswith("probe-"):
+            # a replay that is not one phase-contiguous gated schedule (a free-running run, a probe / micro / window schedule, an acknowledgement interleaving, a ledger case,
+            # a broken proof): the replay file names the harness command or the case; the verdict comes from the whole check
+            print("replay %s is not a single schedule (%s): running the whole check" % (ctx["replay"], rp.get("signature") or rp.get("kind")))
+            ctx["replay"] = None
+    if ctx.get("replay"):
         scheds = [dict(name="replay", cfg=rp.get("config") or rp["detail"]["schedule"]["cfg"], events=rp.get("events") or rp["detail"]["schedule"]["events"])]
         corpus = []
     else:
